@@ -34,6 +34,7 @@ def main():
     ap.add_argument("prop")
     ap.add_argument("--tier", default="quick", choices=["quick", "thorough"])
     ap.add_argument("--replay")
+    ap.add_argument("--accept-statements", action="store_true", help="rewrite tools/statements/<prop>.txt from the current theorems")
     args = ap.parse_args()
     tier = os.environ.get("VERIF_TIER", args.tier)
     if tier not in ("quick", "thorough"):
@@ -74,7 +75,7 @@ def main():
         if not ok_drv:
             notes.append("driver does not build")
     else:
-        res = lib.audit(prop, modules, theorems)
+        res = lib.audit(prop, modules, theorems, accept=args.accept_statements)
         for t, (tok, info) in res.items():
             if tok:
                 discharged += 1
